@@ -96,17 +96,27 @@ TAccept == /\ IsEvent("pc.accept")
                  /\ bad' = bad \cup Flag(Ev.w = mi, "aggregator reads another worker's bucket")
                       \cup Flag(chunk[mi] = <<Ev.start, Ev.start + Ev.size>>, "accepted chunk differs from the bucket")
            /\ Keep
+TDrainedCur == /\ \/ PC!MainDrained
+                  \/ /\ ~closed[mi] /\ pc[mi] = "closing" /\ mres = "none" /\ bucket[mi] = <<>>
+                     /\ closed' = [closed EXCEPT ![mi] = TRUE] /\ pc' = [pc EXCEPT ![mi] = "done"]
+                     /\ IF err[mi] THEN mres' = "err" /\ UNCHANGED mi
+                        ELSE IF eof[mi] \/ PC!AggNext(mi) = PC!NIL THEN mres' = "ok" /\ UNCHANGED mi
+                        ELSE mi' = PC!AggNext(mi) /\ UNCHANGED mres
+                     /\ UNCHANGED <<P, bnd, nulls, cancelled, pos, bucket, pending, active, eof, err, sync, nxt, chunk, prev,
+                                    zeroes, insync, nulltodo, out>>
+               /\ bad' = bad \cup Flag(Ev.w = mi, "aggregator drained another worker")
+                             \cup Flag(Ev.eof = eof[mi], "eof flag differs") \cup Flag(Ev.err = err[mi], "error flag differs")
+\* An aggregator that walks the workers in slice order also passes over followers the drained worker had skipped (finished,
+\* bucket emptied by their predecessor).  Looking into such a bucket is harmless and not the specification's business; what the
+\* loop makes of that worker's flags is: as found, it took the skipped worker's "end of file" for the end of the data
+\* (finding F30) - the run then ends here, and Correct judges the index it returns.
+TDrainedSkipped == /\ Ev.w # mi /\ Ev.w \in 0..(P.NW - 1) /\ mres = "none" /\ closed[Ev.w] /\ bucket[Ev.w] = <<>>
+                   /\ mres' = IF Ev.err THEN "err" ELSE IF Ev.eof THEN "ok" ELSE mres
+                   /\ UNCHANGED <<P, bnd, nulls, cancelled, pos, bucket, pending, closed, active, eof, err, sync, nxt, pc, chunk, prev,
+                                  zeroes, insync, nulltodo, mi, out>>
+                   /\ bad' = bad \cup Flag(Ev.eof = eof[Ev.w], "eof flag differs") \cup Flag(Ev.err = err[Ev.w], "error flag differs")
 TDrained == /\ IsEvent("pc.drained")
-            /\ \/ PC!MainDrained
-               \/ /\ ~closed[mi] /\ pc[mi] = "closing" /\ mres = "none" /\ bucket[mi] = <<>>
-                  /\ closed' = [closed EXCEPT ![mi] = TRUE] /\ pc' = [pc EXCEPT ![mi] = "done"]
-                  /\ IF err[mi] THEN mres' = "err" /\ UNCHANGED mi
-                     ELSE IF eof[mi] \/ mi + 1 = P.NW THEN mres' = "ok" /\ UNCHANGED mi
-                     ELSE mi' = mi + 1 /\ UNCHANGED mres
-                  /\ UNCHANGED <<P, bnd, nulls, cancelled, pos, bucket, pending, active, eof, err, sync, nxt, chunk, prev,
-                                 zeroes, insync, nulltodo, out>>
-            /\ bad' = bad \cup Flag(Ev.w = mi, "aggregator drained another worker")
-                          \cup Flag(Ev.eof = eof[mi], "eof flag differs") \cup Flag(Ev.err = err[mi], "error flag differs")
+            /\ IF Ev.w = mi \/ ~(Ev.w \in 0..(P.NW - 1)) \/ ~(closed[Ev.w] /\ bucket[Ev.w] = <<>>) THEN TDrainedCur ELSE TDrainedSkipped
             /\ Keep
 TCancel == /\ IsEvent("cancel") /\ (PC!Cancel \/ (cancelled /\ UNCHANGED pvars) \/ (mres # "none" /\ UNCHANGED pvars))
            /\ UNCHANGED bad /\ Keep
